@@ -378,3 +378,124 @@ func TestVerifReplay(t *testing.T) {
 }
 ''' % {'regs': ', '.join(regs), 'probes': ', '.join(str(p) for p in probes), 'clear': 'true' if m == 'Clear' else 'false'}
         return 'tokenizers/utilities', src
+
+
+@family(r'/variants\.Variant\)\.|/variants\.(NewVariant|VariantFrom|EmptyVariant)')
+class VariantFamily(Family):
+    """re-creates the receiver (and the other operand) from their variant type and array length through the
+    public constructors, then checks the C20 statement around the function under contract"""
+    NAMES = ['Null', 'Integer', 'Long', 'Float', 'Double', 'String', 'Boolean', 'DateTime', 'TimeSpan', 'Object', 'Array']
+
+    def inputs(self):
+        d = {}
+        ps = {p['n']: p['t'] for p in self.func.params}
+        if 'c' in ps:
+            d['ctyp'] = 'c.typ'
+            d['cn'] = 'len(c.value.([]*Variant))'
+        if 'obj' in ps:
+            d['otyp'] = 'obj.typ'
+            d['on'] = 'len(obj.value.([]*Variant))'
+            d['onil'] = 'obj == nil'
+        if 'index' in ps:
+            d['index'] = 'index'
+        if 'value' in ps and ps['value'].endswith('any') or ps.get('value') == 'interface{}':
+            d['vvar'] = 'typeof(value) == tyVar()'
+            d['vtyp'] = 'value.(*Variant).typ'
+            d['vn'] = 'len(value.(*Variant).value.([]*Variant))'
+        return d
+
+    def bounds(self):
+        b = []
+        ins = self.inputs()
+        if 'cn' in ins:
+            b.append('c.typ == Array ==> len(c.value.([]*Variant)) <= 3')
+        if 'on' in ins:
+            b.append('obj != nil && obj.typ == Array ==> len(obj.value.([]*Variant)) <= 3')
+        if 'vn' in ins:
+            b.append('typeof(value) == tyVar() && value.(*Variant).typ == Array ==> len(value.(*Variant).value.([]*Variant)) <= 3 && len(value.(*Variant).value.([]*Variant)) >= 1')
+        return b
+
+    def mk(self, typ, n, seed):
+        if not isinstance(typ, int) or typ < 0 or typ > 10:
+            typ = 1
+        if not isinstance(n, int) or n < 0 or n > 3:
+            n = 1
+        return 'mkv(%d, %d, %d)' % (typ, n, seed)
+
+    def test_source(self, vals):
+        m = self.func.short
+        c = self.mk(vals.get('ctyp', 1), vals.get('cn', 1), 1)
+        if m in ('SetAsObject', 'NewVariant', 'VariantFromObject') and vals.get('vvar') is True:
+            c = self.mk(vals.get('vtyp', 10), vals.get('vn', 1), 1)
+        o = 'nil' if vals.get('onil') is True else self.mk(vals.get('otyp', 1), vals.get('on', 1), 2)
+        src = '''package variants
+
+import (
+	"testing"
+	"time"
+)
+
+func mkv(typ int, n int, seed int) *Variant {
+	switch VariantType(typ) {
+	case Null: return EmptyVariant()
+	case Integer: return VariantFromInteger(seed)
+	case Long: return VariantFromLong(int64(seed))
+	case Float: return VariantFromFloat(float32(seed))
+	case Double: return VariantFromDouble(float64(seed))
+	case String: return VariantFromString("s")
+	case Boolean: return VariantFromBoolean(seed%%2 == 1)
+	case DateTime: return VariantFromDateTime(time.Unix(int64(seed), 0))
+	case TimeSpan: return VariantFromTimeSpan(time.Duration(seed))
+	case Array:
+		l := []*Variant{}
+		for i := 0; i < n; i++ { l = append(l, VariantFromInteger(seed*10+i)) }
+		return VariantFromArray(l)
+	}
+	return VariantFromObject(struct{ A int }{seed})
+}
+
+func try(t *testing.T, what string, f func()) {
+	defer func() {
+		if r := recover(); r != nil { t.Errorf("%%s: panic: %%v", what, r) }
+	}()
+	f()
+}
+
+func TestVerifReplay(t *testing.T) {
+	try(t, "equality", func() { replayEquality(t) })
+	try(t, "copies", func() { replayCopies(t) })
+}
+
+func replayEquality(t *testing.T) {
+	c := %(c)s
+	var o *Variant = %(o)s
+	// equality never fails and is symmetric; a clone equals its original
+	cl := c.Clone()
+	if !c.Equals(cl) || !cl.Equals(c) { t.Fatalf("a clone does not equal its original (type %%d)", c.Type()) }
+	if o != nil && c.Equals(o) != o.Equals(c) { t.Fatalf("Equals is not symmetric") }
+}
+
+func replayCopies(t *testing.T) {
+	c := %(c)s
+	// mutating a clone never changes the original; a variant keeps its own copy of a list
+	for _, cp := range []*Variant{c.Clone(), NewVariant(c), VariantFromObject(c)} {
+		if c.Type() == Array && c.Length() > 0 {
+			before := c.GetByIndex(0)
+			cp.SetByIndex(0, VariantFromString("changed"))
+			if c.GetByIndex(0) != before { t.Fatalf("writing element 0 of a copy changed the original array") }
+		}
+	}
+	list := []*Variant{VariantFromInteger(1), VariantFromInteger(2)}
+	for _, v := range []*Variant{VariantFromArray(list), NewVariant(list)} {
+		keep := v.GetByIndex(0)
+		list[0] = VariantFromInteger(7)
+		if v.GetByIndex(0) != keep { t.Fatalf("a later change to the caller's list is visible in the variant") }
+		list[0] = keep
+	}
+	// indexed writes past the end grow the array with nulls
+	a := VariantFromArray(list)
+	a.SetByIndex(4, VariantFromInteger(5))
+	if a.Length() != 5 || !a.GetByIndex(2).IsNull() || !a.GetByIndex(3).IsNull() || a.GetByIndex(4).AsInteger() != 5 { t.Fatalf("SetByIndex past the end") }
+}
+''' % {'c': c, 'o': o}
+        return 'variants', src
